@@ -1,0 +1,37 @@
+//go:build verif
+
+package gtree
+
+// Contracts for the gvc verifier (/verif). This file is compiled only with the build tag
+// "verif"; it adds no behaviour to the package. The //@ lines are the contract language of
+// /verif/DESIGN.md; the Go functions below are pure specification functions (the oracles)
+// that the verifier translates to logic and that replay harnesses execute.
+
+//@ global
+//@   invariant kidBack: forall p *Node, i int :: {p.children[i]} 0 <= i && i < len(p.children) ==> p.children[i] != nil && p.children[i].parent == p && p.children[i].hierarchy == p.hierarchy + 1
+//@   invariant kidIn: forall n *Node :: {n.parent} n.parent != nil ==> contains(n.parent.children, n)
+//@   invariant sibNames: forall p *Node, i int, j int :: {p.children[i], p.children[j]} 0 <= i && i < j && j < len(p.children) ==> p.children[i].name != p.children[j].name
+//@   invariant levels: forall n *Node :: {n.hierarchy} n.hierarchy >= 1
+//@   invariant rootTop: forall n *Node :: {n.parent} n.hierarchy == 1 ==> n.parent == nil
+
+// specIsLast: "is its parent's last child".
+func specIsLast(n *Node) bool {
+	return n.parent != nil && len(n.parent.children) > 0 && n.parent.children[len(n.parent.children)-1] == n
+}
+
+//@ func gtree.newNode
+//@   requires lvl: hierarchy >= 1
+//@   ensures fresh: fresh(result)
+//@   ensures fields: result.name == name && result.hierarchy == hierarchy && result.index == index
+//@   ensures blank: result.parent == nil && len(result.children) == 0 && result.brnch.value == "" && result.brnch.path == ""
+
+//@ func gtree.Node.findChildByText
+//@   requires nn: n != nil
+//@   ensures found: result != nil ==> contains(n.children, result) && result.name == text
+//@   ensures none: result == nil ==> (forall j int :: 0 <= j && j < len(n.children) ==> n.children[j].name != text)
+//@ loop gtree.Node.findChildByText#1
+//@   invariant nomatch: forall j int :: 0 <= j && j < $i ==> n.children[j].name != text
+
+//@ func gtree.Node.isLastOfHierarchy
+//@   requires nn: n != nil
+//@   ensures islast [C01,C03,C13]: result == specIsLast(n)
